@@ -1,7 +1,12 @@
-(** C01 (tie A) -- structural facts extracted from the current source (het_block.py, function.py) by tools/translate.py on
-    which the loop models of this property rely. *)
+(** C01 (tie A) -- structural facts extracted from the current source (het_block.py, function.py, misc.py) by
+    tools/translate.py on which the models of this property rely: the four parts of the fake-news algorithm have the shape
+    of Model.FakeNews (Part 1: contemporaneous step then T-1 steps fed by curlyV; Part 2: demeaned expectation iterates
+    started from the first stage's expectation; Part 3: F[0]=curlyY, F[1:]=curlyE.curlyD; Part 4: diagonal recursion), the
+    pipeline of _jacobian wires them in that order with T-1 expectation vectors, and the differentiation dispatch. *)
 From Coq Require Import Bool.
 From SSJ Require Import Gen.HetFacts.
-Theorem code_facts_C01 : J_from_F_shape = true /\ build_F_shape = true /\ hetoutput_derivative_sees_direct_input = true /\ twosided_default_defers_to_constructor = true /\ twosided_request_reaches_backward_and_hetoutputs = true.
+Theorem code_facts_C01 : J_from_F_shape = true /\ build_F_shape = true /\ backward_fakenews_shape = true /\ expectation_vectors_shape = true /\
+  jacobian_pipeline_shape = true /\ backward_step_fakenews_shape = true /\ demean_subtracts_mean = true /\
+  hetoutput_derivative_sees_direct_input = true /\ twosided_default_defers_to_constructor = true /\ twosided_request_reaches_backward_and_hetoutputs = true.
 Proof. repeat split; reflexivity. Qed.
 Print Assumptions code_facts_C01.
